@@ -23,14 +23,14 @@ from .c02 import tokmodel, short
 LEVEL = "other"
 TECHNIQUE = ("table equality against independent standard-library copies; branch partition of the numeric-reference and "
              "attribute-exception guards over boundary values / character atoms; constant folding of the reverse-map loop; "
-             "context inventory from the tokenizer model")
+             "context inventory from the tokenizer model; source evaluation (sa/classeval.py) of consumeNumberEntity, consumeEntity (entity trie modelled over constants.entities) and the codec error handler on character streams / stand-in exceptions against the standard's algorithms")
 CLAIM = ('The named and numeric replacement tables equal independent copies (html.entities.html5, '
          "html._invalid_charrefs); the numeric decoder's guard chain yields the table value, U+FFFD or the "
          'code point for every integer (decided at all interval boundaries), with matching radix and digit '
          "sets; the attribute exception and the not-a-reference pre-check have exactly the standard's "
          'character sets; references are consumed in exactly the five contexts with the right additional '
          'allowed character; every named reference the serializer can emit decodes back to its character. The '
-         "trie's longest_prefix tries the argument and then every shorter prefix in decreasing length.")
+         "trie's longest_prefix tries the argument and then every shorter prefix in decreasing length. consumeNumberEntity, consumeEntity and the codec error handler are also run as a whole from their source on character streams / stand-in exceptions: the resulting text is the standard's for every sampled name x follower x context, leading zeros are not significant, every unencodable character (astral neighbours, surrogate pairs, legacy names) becomes exactly one reference that decodes back.")
 NOT_DECIDED = "the entity trie's has_keys_with_prefix search (bisect on run-time strings) and the look-ahead loop of consumeEntity."
 MODULES = ["_tokenizer.py", "constants.py", "serializer.py", "_trie/py.py", "_trie/_base.py"]
 REL = "_tokenizer.py"
